@@ -31,6 +31,64 @@ CLAIMED = {
         "technique": "CFG dominance + call-graph must-pass-through, backward "
                      "precondition propagation, def-use",
     },
+    "C03": {
+        "text": "Decides that no FileNotFoundError/ProcessLookupError/PermissionError "
+                "raised by any per-process OS access site reachable from a Linux "
+                "Process method (platform layer and public front end) escapes "
+                "untranslated: an exception-escape fix-point over the resolved call "
+                "graph with Python's handler semantics, decorators analysed as their "
+                "wrappers. The translator's own table is evaluated class by class "
+                "(EACCES->AccessDenied, ESRCH/ENOENT->Zombie|NoSuchProcess, re-raise "
+                "only under the liveness probe), swallow-and-continue scanners are "
+                "checked path-sensitively for _raise_if_not_alive(), empty-content "
+                "returns for _raise_if_zombie(), and process_iter/ppid_map/is_running "
+                "for their per-PID policy. Parse errors on truncated content and "
+                "'every later query raises NoSuchProcess' are not decided.",
+        "note": "Trusted: primitive raise table (open/listdir/readlink/stat/kill/"
+                "prlimit/natives), class hierarchy table, callee resolution; fault "
+                "model limited to errno failures and zombie state as the property "
+                "states.",
+        "technique": "exception-escape effect analysis over the call graph + "
+                     "path-sensitive CFG dataflow",
+    },
+    "C05": {
+        "text": "Decides the structural conditions that make the tree walk right on "
+                "every ppid table: visited-set discipline dominating every work-list "
+                "push (termination on cycles), creation-time ordering and own-PID "
+                "exclusion control every result append, the identity guard precedes "
+                "the table read (children) and the parent lookup (via ppid), parent() "
+                "stops at the lowest PID and returns the parent only if it is not "
+                "younger, vanished children are skipped. Real recycling/time "
+                "granularity is not decided.",
+        "note": "Trusted: CFG/dominators; recognition of the work-list idiom "
+                "(while W: W.pop() ... W.append()).",
+        "technique": "CFG dominance / control dependence",
+    },
+    "C15": {
+        "text": "Decides: negative timeouts rejected before waiting; exit code memo "
+                "single-writer; in wait_pid a status is returned only under retpid != 0 "
+                "and None only after pid_exists() turned false; EINTR re-polls; the "
+                "deadline test precedes every sleep when a timeout is given and "
+                "TimeoutExpired(timeout, pid) is raised only under clock >= deadline; "
+                "the poll interval is 1e-4 .. 0.04 by induction on its only update; "
+                "WIFEXITED/WIFSIGNALED decoding; wait_procs' gone/alive bookkeeping. "
+                "How late a poll fires is a timing fact and is not decided.",
+        "note": "Trusted: CFG/dominators; sign-domain evaluation of guard predicates; "
+                "monotonic clock.",
+        "technique": "CFG dominance, path queries, interval induction",
+    },
+    "C16": {
+        "text": "Decides: activation/deactivation pairing through try/finally in "
+                "oneshot() and in all six platform modules (activated = deactivated = "
+                "decorated), only memoised readers open the per-process stat/status/"
+                "smaps records, the block runs under the object's lock and a nested "
+                "block is a no-op, the memoiser's three tolerance branches, as_dict's "
+                "validation-before-query, key set and exception policy. Thread "
+                "interleavings are not explored.",
+        "note": "Trusted: AST shape recognition of the memoiser; template matching of "
+                "f-string procfs paths.",
+        "technique": "typestate pairing, who-may-open, handler tables",
+    },
 }
 
 NOT_APPLICABLE = {}
